@@ -2085,6 +2085,12 @@ def account_families(stats, tr):
                                         "reset_of_a_multi_block_history_by": {}, "history_block_size": HIST_BLKSIZE,
                                         "fresh_feature_buffer_frames": FEAT_ALLOC})
     rf, blocks, pending = [False, False], [0, 0], [False, False]
+    # matrix: documented call made between utterances (after decoder_end_utt, before the next start) -> outcome of the
+    # alignment-kind queries that followed it
+    BETWEEN = ("reinitfeat", "reinit", "reinitcfg", "mllrapply", "setcmn", "getcmn", "addword", "jsgf", "jsgffile", "fsg",
+               "aligntext", "cfg", "logfile", "lookup", "latprune")
+    mat = fam.setdefault("alignment_queries_after_a_between_utterances_call", {})
+    ended, lastb = [False, False], [None, None]
     for call, ret, st in tr:
         if ret is None or ret.startswith("skip"):
             continue
@@ -2101,6 +2107,18 @@ def account_families(stats, tr):
         if pending[i] and op not in ("exit",):
             fam["of_which_followed_by_more_calls_on_that_decoder"] += 1
             pending[i] = False
+        if op == "end" and ret.startswith("ok"):
+            ended[i], lastb[i] = True, None
+        elif op in ("start", "free", "init", "initcfg"):
+            ended[i], lastb[i] = False, None
+        elif ended[i] and op in BETWEEN:
+            lastb[i] = op
+        if lastb[i] and (op in ("align", "alretain") or (op == "json" and len(w) > 1 and w[1] != "0") or
+                         (op == "aliter" and len(w) > 2 and w[2] == "-1")):
+            oc = "reused" if "ru=1" in ret else ("made" if not ret.startswith("null") else
+                                                 ("refused-after-aligner-was-made" if st_field(mine, "a") == "1" else "null"))
+            d = mat.setdefault(lastb[i], {})
+            d[oc] = d.get(oc, 0) + 1
         if op == "reinitfeat" and ret.startswith("ok"):
             rf[i] = True
         elif op in ("start", "reinit", "reinitcfg", "init", "initcfg") and not ret.startswith("err"):
